@@ -307,6 +307,25 @@ func VerifJSONTemplate(n int) {
 	verifJSONValue(total, in, buf)
 }
 
+var verifJSONExpSuffixes = []string{"e0", "e1", "e2", "e3", "e4", "e-1", "e-2", "e-5", "E+7", "e12"}
+
+// VerifJSONNumberExp: [<mantissa of n symbolic bytes><exponent suffix>]: the number shapes with an exponent that
+// the n<=4 value holes cannot reach (1.25e2 is 6 bytes), decided inside a document.
+func VerifJSONNumberExp(n int) {
+	sfx := verifJSONExpSuffixes[vChoice("sfx", len(verifJSONExpSuffixes))]
+	hole := vBytes("in", n)
+	total := 1 + n + len(sfx) + 1
+	buf := make([]byte, 0, total+1)
+	buf = append(buf, '[')
+	buf = append(buf, hole...)
+	buf = append(buf, sfx...)
+	buf = append(buf, ']')
+	buf = buf[:total+1]
+	in := buf[:total]
+	vAssume(refJSONValid(in))
+	verifJSONValue(total, in, buf)
+}
+
 // VerifJSONTotal: arbitrary bytes: no panic, terminates, sentinel byte restored (C10).
 func VerifJSONTotal(n int) {
 	buf := vBytes("in", n+1)
@@ -398,6 +417,10 @@ func VerifJSONBytesTemplate(n int) {
 	out, err := m.Bytes("application/json", in)
 	vOutput("out", out)
 	vOutputBool("err", err != nil)
+	s, err2 := m.String("application/json", string(orig))
+	if err2 != nil {
+		vAssert(s == string(orig), "String: original data on error")
+	}
 	if err != nil && !refBytesEq(out, orig) {
 		vKnown("C10-F2")
 	}
